@@ -1549,12 +1549,23 @@ static int __mcount_entry(unsigned long *parent_loc, unsigned long child, struct
 	return 0;
 }
 
+/*
+ * The entry/exit stubs do not save floating-point registers, but the hooks can
+ * end up in libc (thread setup, shmem buffer switch, read triggers, ...) which
+ * is free to clobber them.  Keep the argument and return value registers of the
+ * traced function intact across every hook.
+ */
 int mcount_entry(unsigned long *parent_loc, unsigned long child, struct mcount_regs *regs)
 {
-	int saved_errno = errno;
-	int ret = __mcount_entry(parent_loc, child, regs);
+	struct mcount_arch_context arch;
+	int saved_errno;
+	int ret;
 
+	mcount_save_arch_context(&arch);
+	saved_errno = errno;
+	ret = __mcount_entry(parent_loc, child, regs);
 	errno = saved_errno;
+	mcount_restore_arch_context(&arch);
 	return ret;
 }
 
@@ -1609,10 +1620,15 @@ static unsigned long __mcount_exit(long *retval)
 
 unsigned long mcount_exit(long *retval)
 {
-	int saved_errno = errno;
-	unsigned long ret = __mcount_exit(retval);
+	struct mcount_arch_context arch;
+	int saved_errno;
+	unsigned long ret;
 
+	mcount_save_arch_context(&arch);
+	saved_errno = errno;
+	ret = __mcount_exit(retval);
 	errno = saved_errno;
+	mcount_restore_arch_context(&arch);
 	return ret;
 }
 
@@ -1833,10 +1849,14 @@ static void _xray_entry(unsigned long parent, unsigned long child, struct mcount
 
 void xray_entry(unsigned long parent, unsigned long child, struct mcount_regs *regs)
 {
-	int saved_errno = errno;
+	struct mcount_arch_context arch;
+	int saved_errno;
 
+	mcount_save_arch_context(&arch);
+	saved_errno = errno;
 	_xray_entry(parent, child, regs);
 	errno = saved_errno;
+	mcount_restore_arch_context(&arch);
 }
 
 static void _xray_exit(long *retval)
@@ -1876,10 +1896,14 @@ out:
 
 void xray_exit(long *retval)
 {
-	int saved_errno = errno;
+	struct mcount_arch_context arch;
+	int saved_errno;
 
+	mcount_save_arch_context(&arch);
+	saved_errno = errno;
 	_xray_exit(retval);
 	errno = saved_errno;
+	mcount_restore_arch_context(&arch);
 }
 
 static void atfork_prepare_handler(void)
